@@ -21,6 +21,7 @@ from ..loader import AnalysisError
 from ..pe import ConfigRejected, Tensor
 from .. import quant, oracle
 from ..qir import Fwd, Eval, Env, value_set, piecewise_derivative
+from ..ieee import ConstEval, Inconclusive, finite
 from ..nf import NF, show
 from ..vset import VS
 
@@ -29,6 +30,8 @@ TECHNIQUE = ("Normal-form factorisation output = recorded scale x code; "
              "for the scale; reduction-axes check over ranks 2..4.")
 
 PTS = Tensor(("sym", "post_training_scale"), None)
+CONST_INPUTS = [(0.0, "zero"), (1e-6, "1e-6"), (-1e-6, "-1e-6"), (1.0, "1"),
+                (-1.0, "-1"), (1e6, "1e6"), (-1e6, "-1e6")]
 
 
 def lattice(tier):
@@ -63,9 +66,12 @@ def run(rep, repo, tier):
   mod = repo.module(quant.QMOD)
   rep.trusted.append("semantics table of TF/Keras primitives; tf.while_loop "
                      "summarised by the join of its iterates")
-  rep.assumptions.append("finiteness for all-zero channels, 'auto' mapping "
-                         "the channel maximum to the top code and power-of-"
-                         "two equivariance are numeric clauses, not decided")
+  rep.assumptions.append("'auto' mapping the channel maximum to the top code "
+                         "and power-of-two equivariance are numeric "
+                         "clauses, not decided; finiteness is decided on "
+                         "constant tensors (all-zero channel, +-1e-6, +-1, "
+                         "+-1e6) by IEEE-style evaluation of the IR, not "
+                         "for arbitrary tensors")
   n = 0
   for cls, kw in lattice(tier):
     if cls not in mod.classes:
@@ -144,6 +150,21 @@ def run(rep, repo, tier):
                   "the clipped power-of-two scale has value set %r, outside "
                   "the configured exponent bounds [%s, %s]" % (inner, mn, mx),
                   loc=loc, instance=cfg, facts=facts)
+    # R5 finiteness on constant tensors (the all-zero tensor is what an
+    # all-zero channel looks like to the per-channel reductions): IEEE-style
+    # evaluation of the IR with NaN / inf propagated as TensorFlow does
+    for xv, what in CONST_INPUTS:
+      for ph in ("infer", "train"):
+        try:
+          v = ConstEval(xv, ph, {"f": 1.0, "post_training_scale": 0.25})(
+              b.term)
+        except Inconclusive as e:
+          rep.extra["finiteness_inconclusive"] = rep.extra.get(
+              "finiteness_inconclusive", 0) + 1
+          continue
+        rep.check(finite(v), "R5", unit, "non-finite-output:" + what,
+                  "%s: a tensor whose elements are all %s gives %r" %
+                  (cfg, what, v), loc=loc, instance=cfg)
     # R3 detached scale / gradient
     segs = piecewise_derivative(b.term, syms={"post_training_scale":
                                               NF.sym("pts")})
@@ -190,3 +211,4 @@ def run(rep, repo, tier):
   rep.require_instances("R2", 30)
   rep.require_instances("R3", 60)
   rep.require_instances("R4", 20)
+  rep.require_instances("R5", 500)
